@@ -11,7 +11,7 @@ CONSTANTS
   Strict = FALSE
   ReqFams = {0, 4, 6, 9}
   ChanNums = {16384}
-  LifeReqs <- MCLifeAbsent
+  LifeReqs <- MCLifeAbsent0
   Txids = {"t1"}
   Pays = {"p"}
   Lens <- MCLenSmall
